@@ -133,9 +133,21 @@ fn metamorphic(ctx: &mut Ctx) {
         let link0 = if r.chance(1, 2) { Link::Ethernet } else { Link::RawIp };
         let base = variant(&mut r, &id, false, link0);
         let ns: Vec<usize> = vec![1, 2, 3, 4, 7, 8, 16, 1 + r.usize(64), 64];
+        let other_id = rand_identity(&mut r);
+        let other = variant(&mut r, &other_id, false, link0);
         for kind in [PoolKind::Tcp, PoolKind::Http, PoolKind::Tls] {
-            for &n in &ns {
+            // the worker is a function of (identity, worker count) alone: the same frame asked
+            // for the counts in descending order, back to back, and later again in ascending
+            // order after a frame of another connection, gets the same (valid) answers
+            let desc: Vec<Option<usize>> = ns.iter().rev().map(|&n| hash_of(kind, &base, n)).collect();
+            for (i, &n) in ns.iter().enumerate() {
+                let _ = hash_of(kind, &other, n);
                 let w0 = hash_of(kind, &base, n);
+                let wd = desc[ns.len() - 1 - i];
+                ctx.judge(w0 == wd && wd.map(|x| x < n).unwrap_or(true), &[], "worker index of one frame and worker count depends on the calls made before (or is invalid)", || {
+                    json!({"pool": format!("{kind:?}"), "workers": n, "frame_hex": hex(&base), "asked_in_descending_sweep": format!("{wd:?}"), "asked_after_another_connection": format!("{w0:?}"),
+                           "descending_sweep_counts": ns.iter().rev().collect::<Vec<_>>()})
+                });
                 for k in 0..6 {
                     // (a third of the Ethernet variants carry MAC addresses that read like an IP
                     // header or a loopback family word: the link layer is no part of the identity)
@@ -245,7 +257,11 @@ fn history(ctx: &mut Ctx) {
         let nframes = if ctx.miri() { 12 } else { 40 + r.usize(260) };
         let frames = history_frames(&mut r, kind, nframes);
         let cfg = PoolCfg {
-            workers: 1 + r.usize(8),
+            workers: match r.below(if ctx.miri() { 1 } else { 8 }) {
+                6 => 9 + r.usize(24),
+                7 => 33 + r.usize(32),
+                _ => 1 + r.usize(8),
+            },
             queue: *r.pick(&[0usize, 1, 1, 2, 8, 64, 1024]),
             batch: *r.pick(&[1usize, 2, 32]),
             timeout_ms: 1,
@@ -356,6 +372,21 @@ fn history(ctx: &mut Ctx) {
                 }
             }
         }
+        // a frame is dropped only when its worker's queue is full: with room for every frame of
+        // the run in each queue, only frames the TLS hash refuses may be dropped
+        if cfg.queue >= frames.len() {
+            let refused: HashSet<u64> = if kind == PoolKind::Tls {
+                frames.iter().filter(|f| hash_of(kind, &f.bytes, cfg.workers).is_none()).map(|f| f.id).collect()
+            } else {
+                HashSet::new()
+            };
+            if let Some(id) = dropped.iter().find(|id| !refused.contains(id)) {
+                problems.push(format!("frame {id:016x} reported Dropped although no queue can have been full (queue size {} >= {} frames)", cfg.queue, frames.len()));
+            }
+        }
+        if stats.worker_dropped.len() != cfg.workers || stats.queue_sizes.len() != cfg.workers {
+            problems.push(format!("statistics list {} workers, {} configured", stats.worker_dropped.len().min(stats.queue_sizes.len()), cfg.workers));
+        }
         // statistics vs outcomes
         let n_q = queued.len() as u64;
         let n_d = dropped.len() as u64;
@@ -419,9 +450,97 @@ fn history(ctx: &mut Ctx) {
     }
 }
 
+/// One capture thread feeding two pools of different size with the same frames: each pool's
+/// assignment is its own function of (identity, its worker count), always a valid index, and with
+/// room in every queue nothing well-formed is dropped.
+fn two_pools(ctx: &mut Ctx) {
+    if ctx.miri() {
+        return;
+    }
+    pool::install_hooks();
+    let runs = ctx.scale(60, 1_500, 2) / ctx.nshards as u64 + 1;
+    let mut r = ctx.rng(1819);
+    for run in 0..runs {
+        if ctx.rep.violation_count > 40 {
+            break;
+        }
+        let kind = *r.pick(&[PoolKind::Tcp, PoolKind::Http, PoolKind::Tls]);
+        let nf = 30 + r.usize(60);
+        let frames = history_frames(&mut r, kind, nf);
+        let (wa, wb) = *r.pick(&[(64usize, 2usize), (33, 3), (16, 5), (8, 64), (2, 64), (5, 4), (40, 17), (7, 7)]);
+        let mk = |w: usize| PoolCfg { workers: w, queue: 1024, batch: 4, timeout_ms: 1, max_conn: 256, with_db: false };
+        pool::reset_log(r.next_u64(), 0);
+        let (ha, hb) = match (Handle::new(kind, &mk(wa), Filters::none()), Handle::new(kind, &mk(wb), Filters::none())) {
+            (Ok(a), Ok(b)) => (a, b),
+            _ => {
+                ctx.judge(false, &[], "worker pool could not be created", || json!({"workers": [wa, wb]}));
+                continue;
+            }
+        };
+        let (da, db) = (ha.dispatcher(), hb.dispatcher());
+        let mut outcomes: Vec<(u64, bool, bool)> = Vec::new();
+        let res = crate::rt::guard(|| {
+            let mut o = Vec::new();
+            for f in &frames {
+                o.push((f.id, da(f.bytes.clone()), db(f.bytes.clone())));
+            }
+            o
+        });
+        let mut problems: Vec<String> = Vec::new();
+        match res {
+            Ok(o) => outcomes = o,
+            Err(p) => problems.push(format!("panic while dispatching: {p}")),
+        }
+        let total: u64 = outcomes.iter().map(|o| o.1 as u64 + o.2 as u64).sum();
+        let drain = pool::wait_drain(total, Duration::from_secs(30), &|| ha.queued_now() + hb.queued_now());
+        let (sa, sb) = (ha.stats(), hb.stats());
+        ha.shutdown();
+        hb.shutdown();
+        let events = pool::take_events();
+        if drain == pool::Drain::Stalled {
+            ctx.inconclusive("two pools did not reach quiescence within the 30 s watchdog");
+            continue;
+        }
+        if drain == pool::Drain::IdleShort {
+            problems.push(format!("{} frames reported Queued, but the pools went idle with fewer processed", total));
+        }
+        let chosen = pool::chosen_workers(&events);
+        let mut group_worker: HashMap<(u64, usize), usize> = HashMap::new();
+        for (f, o) in frames.iter().zip(outcomes.iter()) {
+            if f.ident.is_some() && !(o.1 && o.2) {
+                problems.push(format!("well-formed frame {:016x} reported Dropped (pool of {wa}: queued={}, pool of {wb}: queued={}) although every queue has room", f.id, o.1, o.2));
+            }
+            if let Some(ch) = chosen.get(&f.id) {
+                // chosen-events of one frame are in dispatch order: first pool, then second
+                let sizes = if ch.len() == 2 { vec![wa, wb] } else { vec![] };
+                for (k, (w, n)) in ch.iter().zip(sizes.iter()).enumerate() {
+                    if w >= n {
+                        problems.push(format!("frame {:016x}: worker index {w} chosen in a pool of {n} workers", f.id));
+                    }
+                    if let Some(g) = f.ident {
+                        let prev = *group_worker.entry((g, k)).or_insert(*w);
+                        if prev != *w {
+                            problems.push(format!("frames of identity group {g} were sent to workers {prev} and {w} of one pool"));
+                        }
+                    }
+                }
+            }
+        }
+        if sa.worker_dropped.len() != wa || sb.worker_dropped.len() != wb {
+            problems.push(format!("statistics list {} and {} workers, {wa} and {wb} configured", sa.worker_dropped.len(), sb.worker_dropped.len()));
+        }
+        ctx.judge(problems.is_empty(), &[], "one thread feeding two pools: assignment invalid, history-dependent, or frames dropped with room in the queues", || {
+            json!({"pool": format!("{kind:?}"), "workers": [wa, wb], "frames": frames.len(), "problems": problems.iter().take(8).collect::<Vec<_>>(), "run": run,
+                   "stats": [format!("{sa:?}"), format!("{sb:?}")]})
+        });
+        ctx.bucket(&format!("two-pools/{kind:?}/w{wa}+w{wb}"));
+    }
+}
+
 pub fn run(ctx: &mut Ctx) {
     metamorphic(ctx);
     history(ctx);
+    two_pools(ctx);
 }
 
 /// thorough tier only: sanitizer / interpreter stages, run once in the parent
@@ -440,6 +559,7 @@ pub fn spec() -> PropSpec {
         shards: super::shards_8_16,
         rule: "(a) for seeded connection identities, frames that keep the identity the pool shards on (TCP: source address; TLS: directed 4-tuple; HTTP: undirected 4-tuple) but vary payload, flags, seq/ack, window, TTL, ID, TOS, IP options (IHL 0..15), TCP options, total length and framing are hashed for worker counts 1..64 and must give one valid index; garbage and truncated frames must give a valid index or a refusal; (b) pools are driven by 1..8 dispatcher threads with queue sizes 0..1024 and unique frames (well-formed, non-TCP, truncated, garbage); after logical quiescence the event log must show each Queued frame processed exactly once on the worker chosen for it, no Dropped frame processed, one worker per identity group, and statistics equal to the outcomes returned; a bucket is a distinct (pool, dispatchers, queue, workers, batch, drops) configuration, identity class, or distinct processing order observed",
         assumptions: &[
+            "histories use 1..8 workers (three quarters) or 9..64 workers; with a queue at least as long as the run no frame may be Dropped except frames the TLS hash refuses; a two-pools stage feeds two pools of different size from one thread",
             "connection identity is the analyzer's own view of a frame; raw-IP frames whose source address begins 08 00 / 86 dd are read as Ethernet by the analyzers' parser too and are excluded",
             "total_dispatched is crate-specific: the TCP pool counts queued frames, the HTTP and TLS pools count attempts that reached a worker queue",
             "loopback (NULL) framing is outside the property's quantifier (Ethernet or raw)",
